@@ -1111,10 +1111,38 @@ type CallTemplateExpression struct {
 
 func (cte CallTemplateExpression) IsNode() bool { return true }
 func (cte CallTemplateExpression) Write(w io.Writer, indent int) error {
-	// Rewrite to new call syntax, formatted the way that syntax is formatted.
 	expression := cte.Expression
 	expression.Value = strings.TrimSpace(expression.Value)
+	if containsComment(expression.Value) {
+		// The new call syntax ends where the call ends: a comment after the call would become a
+		// node of its own, and one in front of it would take the call's place. A call that is
+		// written with a comment inside the braces keeps the syntax it has.
+		if endsWithLineComment(expression.Value) {
+			if err := writeIndent(w, indent, `{! `, expression.Value, "\n"); err != nil {
+				return err
+			}
+			return writeIndent(w, indent, `}`)
+		}
+		return writeIndent(w, indent, `{! `, expression.Value, ` }`)
+	}
+	// Rewrite to new call syntax, formatted the way that syntax is formatted.
 	return TemplElementExpression{Expression: expression}.Write(w, indent)
+}
+
+// containsComment reports whether the Go code holds a comment.
+func containsComment(src string) bool {
+	var s scanner.Scanner
+	fset := token.NewFileSet()
+	s.Init(fset.AddFile("", fset.Base(), len(src)), []byte(src), nil, scanner.ScanComments)
+	for {
+		_, tok, _ := s.Scan()
+		if tok == token.EOF {
+			return false
+		}
+		if tok == token.COMMENT {
+			return true
+		}
+	}
 }
 
 // TemplElementExpression can be used to create and render a template using data.
